@@ -152,7 +152,7 @@ val erase_cb : bool -> (name * term) -> maps -> maps option
 
 val push_scope : bool -> tn -> tn
 
-val pop_scope : bool -> bool -> tn -> tn option
+val pop_scope : bool -> bool -> bool -> tn -> tn option
 
 val erase_direct : bool -> name -> tn -> (tn * bool) option
 
@@ -169,7 +169,7 @@ val df_push : df -> df
 val df_pop : df -> df option
 
 type fixes = { fx_erase : bool; fx_assert : bool; fx_pop : bool;
-               fx_names : bool }
+               fx_names : bool; fx_guard : bool }
 
 type status =
 | StUndef
